@@ -40,6 +40,8 @@ NM == Len(AllMacros)
 
 Call(name, args) == DMap(<<DPair(name, DNull)>> \o args)
 Uses == { S("@one"), S("@grp"), S("@str"), S("@strq"), DMap1("@str", DMap1("times", DInt(2))),
+          \* the same string macro with other bounds (every use carries its own `times')
+          DMap1("@str", DMap1("times", DInt(3))),
           DMap1("push", L(<<S("@reg")>>)), DMap1("mov", L(<<S("@reg"), S("@regx")>>)), DMap1("pop", L(<<S("%r@lx")>>)),
           Call("@z", <<DPair("p1", S("eax"))>>), Call("@z", <<DPair("p1", S("ebx"))>>),
           \* an argument written as an unquoted YAML integer (0 is falsy in the implementation language)
